@@ -386,6 +386,30 @@ pub fn gen_packbits_cfg(rng: &mut Rng) -> Cfg {
     }
 }
 
+/// a configuration with TWO array->array codecs of which the first changes the chunk shape (transposes of non-square
+/// chunks with orders that are not their own inverse, squeeze + transpose), then `bytes` (+ a checksum or a compressor)
+pub fn gen_two_a2a_cfg(rng: &mut Rng) -> Cfg {
+    let dts = dtypes();
+    let want = *rng.pick(&["uint16", "int32", "uint8"]);
+    let dt = dts.iter().find(|d| d.name == want).unwrap().clone();
+    let fill = rng.pick(&dt.fills).clone();
+    let perm_json = |p: &[usize]| format!("{{\"name\":\"transpose\",\"configuration\":{{\"order\":[{}]}}}}", p.iter().map(|x| x.to_string()).collect::<Vec<_>>().join(","));
+    let perm_desc = |p: &[usize]| format!("transpose{}", p.iter().map(|x| x.to_string()).collect::<String>());
+    let (chunk, a2a_json, a2a_desc): (Vec<u64>, Vec<String>, Vec<String>) = match rng.below(4) {
+        0 => (vec![2, 3], vec![perm_json(&[1, 0]), perm_json(&[1, 0])], vec![perm_desc(&[1, 0]), perm_desc(&[1, 0])]),
+        1 => (vec![2, 3, 4], vec![perm_json(&[1, 2, 0]), perm_json(&[0, 2, 1])], vec![perm_desc(&[1, 2, 0]), perm_desc(&[0, 2, 1])]),
+        2 => (vec![3, 2, 2], vec![perm_json(&[2, 0, 1]), perm_json(&[2, 0, 1])], vec![perm_desc(&[2, 0, 1]), perm_desc(&[2, 0, 1])]),
+        _ => (vec![1, 3, 2], vec!["{\"name\":\"zarrs.squeeze\"}".to_string(), perm_json(&[1, 0])], vec!["squeeze".to_string(), perm_desc(&[1, 0])]),
+    };
+    let shape: Vec<u64> = chunk.iter().map(|&c| c * rng.range(1, 2)).collect();
+    let es = dt.es.unwrap();
+    let bytes = if es == 1 { "{\"name\":\"bytes\"}".to_string() } else { "{\"name\":\"bytes\",\"configuration\":{\"endian\":\"little\"}}".to_string() };
+    let (tail_json, tail_desc) = match rng.below(3) { 0 => (String::new(), String::new()), 1 => (",{\"name\":\"crc32c\"}".to_string(), "|crc32c".to_string()), _ => (",{\"name\":\"gzip\",\"configuration\":{\"level\":1}}".to_string(), "|gzip".to_string()) };
+    Cfg { dtype: dt, fill, shape, grid: chunk.iter().map(|&c| (true, vec![c])).collect(), regular_impl: true, keys: ("default".into(), "/".into()),
+        codecs_json: format!("[{},{}{}]", a2a_json.join(","), bytes, tail_json), chain_desc: format!("{}|bytes{}{}", a2a_desc.join("|"), if es == 1 { "" } else { "-little" }, tail_desc),
+        sharded: false, path: "/t2".into(), eff_inner: None }
+}
+
 pub fn gen_cfg(rng: &mut Rng, want_sharded: Option<bool>) -> Cfg {
     let dts = dtypes();
     loop {
